@@ -3,6 +3,14 @@ use crate::{hex, unhex};
 use lettre::message::header::{self, Header};
 use std::time::{Duration, SystemTime, UNIX_EPOCH};
 
+#[derive(Clone)]
+struct XCustom(String);
+impl Header for XCustom {
+    fn name() -> header::HeaderName { header::HeaderName::new_from_ascii_str("X-Custom") }
+    fn parse(s: &str) -> Result<Self, Box<dyn std::error::Error + Send + Sync>> { Ok(Self(s.into())) }
+    fn display(&self) -> header::HeaderValue { header::HeaderValue::new(Self::name(), self.0.clone()) }
+}
+
 fn s(h: &str) -> Option<String> { String::from_utf8(unhex(h)).ok() }
 
 pub fn dispatch(f: &[&str]) -> String {
@@ -23,6 +31,22 @@ pub fn dispatch(f: &[&str]) -> String {
             }
             None => "invalid-utf8".into(),
         },
+        "msg.full" => {
+            // a whole message through the public builder: every text-carrying argument supplied by the caller
+            // f[1] subject, f[2] message id, f[3] extra (in-reply-to, references, user agent, comments, X-Custom), f[4] display name, f[5] file name, f[6] content id
+            let (Some(subj), Some(mid), Some(extra), Some(dname), Some(fname), Some(cid)) = (s(f[1]), s(f[2]), s(f[3]), s(f[4]), s(f[5]), s(f[6])) else { return "invalid-utf8".into() };
+            use lettre::message::{Attachment, Mailbox, MultiPart, SinglePart};
+            let from = Mailbox::new(Some(dname), "a@x.example".parse().unwrap());
+            let b = lettre::Message::builder().from(from).to("b@y.example".parse().unwrap()).subject(subj).message_id(Some(mid))
+                .in_reply_to(extra.clone()).references(extra.clone()).user_agent(extra.clone()).header(header::Comments::from(extra.clone()))
+                .header(XCustom(extra))
+                .date(UNIX_EPOCH + Duration::from_secs(1_700_000_000));
+            let mp = MultiPart::mixed().boundary("BOUNDARY-msgfull-0001")
+                .singlepart(SinglePart::plain(String::from("text")))
+                .singlepart(Attachment::new(fname).body(b"data".to_vec(), "application/octet-stream".parse().unwrap()))
+                .singlepart(Attachment::new_inline(cid).body(b"img".to_vec(), "image/png".parse().unwrap()));
+            match b.multipart(mp) { Ok(m) => format!("ok\t{}", hex(&m.formatted())), Err(e) => format!("err\t{e}") }
+        }
         "c19.msg_headers" => {
             // a message built from arbitrary strings: subject, a From list parsed from text, reply-to, in-reply-to, references, message id, user agent
             let (Some(subj), Some(from), Some(extra)) = (s(f[1]), s(f[2]), s(f[3])) else { return "invalid-utf8".into() };
